@@ -764,4 +764,35 @@ pub fn multi_dispatch_check(seed: u64, cases: u64, rep: &mut Report) {
             }
         }
     }
+    // a plan beyond 16 bits: exactly the planned number of inner dispatches (one counting system inside)
+    {
+        use std::sync::{atomic::AtomicU64, Arc};
+        struct Count(Arc<AtomicU64>);
+        impl<'a> System<'a> for Count {
+            type SystemData = ();
+            fn run(&mut self, _: ()) {
+                self.0.fetch_add(1, SeqCst);
+            }
+            fn running_time(&self) -> RunningTime {
+                RunningTime::VeryShort
+            }
+        }
+        let n = 65_536 + Rng::new(seed ^ 0xb16, 0).below(700) as usize;
+        let c = Arc::new(AtomicU64::new(0));
+        let mut inner: Builder = DispatcherBuilder::new();
+        inner.add(Count(c.clone()), "count", &[]);
+        let mut b = new_builder(&make_pool(1));
+        b.add_batch(MultiDispatcher::new(Plan(n)), inner, "multi", &[]);
+        let mut d = b.build();
+        let w = full_world();
+        let t0 = std::time::Instant::now();
+        let ok = catch_unwind(AssertUnwindSafe(|| d.dispatch(&w))).is_ok();
+        rep.add("big_plan_ms", t0.elapsed().as_millis() as u64);
+        rep.count("multi_dispatcher_cases");
+        let line = format!("multi n={} inner=1 tl=0 outer=0 dispatches=1", n);
+        let runs = c.load(SeqCst);
+        if !ok || runs != n as u64 {
+            rep.violate("C04", "impl", "", format!("{}: the system inside the multi-dispatch batch ran {} times, planned {}{}", line, runs, n, if ok { "" } else { " (the dispatch panicked)" }), vec![line]);
+        }
+    }
 }
